@@ -83,7 +83,7 @@ template<class F> ParResult par_children(int n, F body, double timeout_s)
       struct pollfd p {fds[c], POLLIN, 0};
       int pr = poll(&p, 1, (int)std::min(left * 1000. + 1, 1e6));
       if (pr < 0) { if (errno == EINTR) continue; break; }
-      if (pr == 0) { timed_out = true; break; }
+      if (pr == 0) continue;  // poll slice elapsed (capped at 1000 s); the real deadline is tested at the top of the loop
       ssize_t k = read(fds[c], buf, sizeof buf);
       if (k <= 0) break;
       R.data[c].append(buf, (size_t)k);
